@@ -91,10 +91,11 @@ def execute(spec):
     stats["probe_complex"] = 1
 
     arrays = [s.arrays for s in scenes]
-    if spec.get("init_seed") is not None:
-        E0, H0 = rp.random_init(scenes[0], spec["init_seed"], scale=0.05)
-        arrays = [rp.set_fields(s, E0, H0) for s in scenes]
     steppers = [dr.Stepper(s) for s in scenes]
+    if spec.get("init_seed") is not None:
+        E0, H0, stats["init_scale"], n = rp.balanced_init(scenes[0], steppers[0], spec["init_seed"])
+        rp.count_steps(stats, n, scenes[0].dt)
+        arrays = [rp.set_fields(s, E0, H0) for s in scenes]
     states = [st.state0(a) for st, a in zip(steppers, arrays)]
     phasor = {d["name"] for d in spec["detectors"] if d["kind"] == "phasor"}
     fa = None
